@@ -264,3 +264,4 @@ for _p in ("C01", "C02", "C06", "C07", "C09", "C11", "C12", "C03", "C04", "C10",
 for _p in ("C01", "C02", "C06", "C07", "C03", "C04", "C08", "C09", "C10", "C12", "C13", "C18"):
     PROPS[_p]["vmcheck"] = True
     PROPS[_p]["coq_files"] = PROPS[_p]["coq_files"] + ["Cases/Eval.v"]
+PROPS["C09"]["build_expect"] = gens.build_expect_c09
